@@ -45,7 +45,7 @@ Print Assumptions C01_covered_cases.
 Definition ex_case : tcase :=
   {| t_content := [1; 2; 3; 4; 5; 6; 7; 8; 9; 10; 11; 12; 13; 14; 15; 16; 17]%N; t_chunks := [3; 1; 5]%nat;
      t_netascii := false; t_options := [(lit "blksize", lit "8")];
-     t_limits := {| max_bs := 65464; max_tmo := 30; default_tmo := 2 |}; t_retries := 1; t_wrap := Some 0%N;
+     t_limits := {| max_bs := 65464; max_tmo := 30720; default_tmo := 2048 |}; t_retries := 1; t_wrap := Some 0%N;
      t_kind := KNoFileno;
      t_events := [Recv 5 0 [0; 4; 0; 0]; Recv 2100 0 [0; 4; 0; 1]; Recv 2101 0 [0; 4; 0; 1];
                   Recv 2102 0 [0; 4; 0; 2]; Recv 2103 0 [0; 4; 0; 3]]%N;
